@@ -82,6 +82,7 @@ type FileSpec struct {
 	Name    string `json:"name"`
 	Mode    uint32 `json:"mode"`
 	Content string `json:"content"`
+	Link    string `json:"link,omitempty"` // C18: the entry is a symbolic link with this (relative) target
 }
 
 // Scenario is explicit: the seed only generates scenarios, the replay file
